@@ -1,5 +1,6 @@
 import Thanos.Common.Parse
 import Thanos.Model.Bucket
+import Thanos.Model.DedupFilter
 /-
   Line-protocol driver of the `block` family (C28 C31 C32 C33 C35).
   One request per line, one answer per line; every line is self-contained.
@@ -8,6 +9,9 @@ import Thanos.Model.Bucket
           chunks = <name>:<size>,… | -      index = <size>
           steps  = <proc>:<k>;…             proc ∈ up ship rep del mark nocomp ; k = crash budget | x
         answer: <status>[<mutating calls>] … => <listing>       (grammar in harness/cmd/block/c28.go)
+
+  C31   dd.filter <metas>        metas = <id>:<group>:<src>,<src>,…;…   (sources `-` = none)
+        answer: kept=<ids ascending> dups=<ids ascending>
 -/
 open Thanos Thanos.Parse
 
@@ -80,8 +84,34 @@ def blkRun (chunks index steps : String) : String :=
     | none => "bad-op"
   | _, _, _ => "bad-op"
 
+-- ---------------------------------------------------------------- C31
+
+def insertNat (x : Nat) : List Nat → List Nat
+  | [] => [x]
+  | y :: ys => if x ≤ y then x :: y :: ys else y :: insertNat x ys
+
+def sortNats (xs : List Nat) : List Nat := xs.foldr insertNat []
+
+def parseMeta (t : String) : Option DedupFilter.Meta :=
+  match splitChar ':' t with
+  | [i, g, srcs] => do
+    let i ← parseNat? i
+    let g ← parseNat? g
+    let ss ← parseNats? ',' srcs
+    pure ⟨i, g, ss⟩
+  | _ => none
+
+def ddFilter (metas : String) : String :=
+  match (listOf ';' metas).mapM parseMeta with
+  | some ms =>
+    let d := DedupFilter.dups ms
+    let k := (DedupFilter.kept ms).map (·.id)
+    s!"kept={showNats "," (sortNats k)} dups={showNats "," (sortNats d)}"
+  | none => "bad-op"
+
 def handle : List String → String
   | ["blk.run", chunks, index, steps] => blkRun chunks index steps
+  | ["dd.filter", metas] => ddFilter metas
   | _ => "bad-op"
 
 end Thanos.Driver.Block
